@@ -432,7 +432,8 @@ def data_types(chk, prog, ls=()):
     if counter:
         ev = sym.Evaluator(prog)
         try:
-            ev.eval_fn(counter, [("closure", counter, (P("data_types"),)), P("key")])
+            caps = tuple(P(u.get("name") or "cap%d" % i) for i, u in enumerate(prog.fn(counter).j.get("upvars", []))) or (P("data_types"),)
+            ev.eval_fn(counter, [("closure", counter, caps), P("key")])
             gets = [e for e in ev.effects if e[0].endswith("HashMap::<K, V, S, A>::get")]
             ins = [e for e in ev.effects if e[0].endswith("HashMap::<K, V, S, A>::insert")]
             okc = len(gets) == 1 and len(ins) == 1 and gets[0][1][1] == P("key")
